@@ -25,7 +25,7 @@ from ..models import streams as SM
 
 PROPERTY = "C06"
 ALPHABET = "see h2mc/lifecycle.py: ~45 actions per role on streams {1,3} + promised stream 2, plus cleanup"
-BOUNDS = {"quick": "depth 6, both roles, handshaken and h2c-upgraded start states",
+BOUNDS = {"quick": "depth 6, both roles, handshaken and h2c-upgraded start states; depth 5 with validate_outbound_headers=False",
           "thorough": "closure (or the per-harness time budget, reported), both roles, both start states"}
 
 
@@ -44,8 +44,12 @@ class Spec(L.Spec):
 
     def __init__(self, key):
         _, role, start, tier = key
-        depth = 6 if tier == "quick" else None
+        depth = (5 if start == "handshaken-nocheck" else 6) if tier == "quick" else None
         super().__init__(role == "client", depth, upgraded=(start == "upgraded"))
+        if start == "handshaken-nocheck":
+            # the state machine - which calls succeed, which frames are accepted - is the same whether or not the header
+            # lists the application passes are checked
+            self.cfg = {"validate_outbound_headers": False}
         self.name = "c06-%s-%s-%s" % (role, start, tier)
         f, aux = self.sids
         # a WINDOW_UPDATE that overflows the stream's send window (the library must reset the stream, which then IS reset), and a
@@ -80,6 +84,19 @@ class Spec(L.Spec):
                     "state": s.state if s is not None else "idle", "closed_by": s.closed_by if s is not None else None,
                     "sent": s.sent if s is not None else "none", "recv": s.recv if s is not None else "none"}
             return st.h.api("advertise_alternative_service", b'h2=":443"', stream_id=sid), info
+        if self.cfg and lab.startswith("l:hdr:") and lab.split(":")[3] != "info":
+            # without outbound validation the library cannot tell what a header list is except by its position: the first
+            # block sent on a stream is the request / the response and a later one the trailers, whatever they contain (what
+            # they contain is C08's business); only 1xx blocks are recognised by their :status
+            sid = int(lab.split(":")[2])
+            s = st.h.m.get(sid)
+            sent = "none" if s is None else s.sent
+            positional = ("request" if self.client else "response") if sent == "none" else "trailers" if sent == "final" else None
+            if positional:
+                v = SM.send_verdict(st.h.m, "headers", sid, lab.endswith(":es"), positional)
+                o, info = super().execute(st, lab)
+                info["verdict"] = v
+                return o, info
         return super().execute(st, lab)
 
     def judge(self, st, lab, info, o, bad):
@@ -134,5 +151,5 @@ def make_spec(key):
 def run(ctx):
     quick = ctx.tier == "quick"
     for role in ("server", "client"):
-        for start in ("handshaken", "upgraded"):
+        for start in ("handshaken", "upgraded", "handshaken-nocheck"):
             ctx.explore(("c06", role, start, ctx.tier), time_budget=None if quick else 420)
